@@ -56,7 +56,7 @@ def gen_cases(tier, seed):
     n = 40 if tier == "quick" else 1700
     for fmt in FORMATS:
         for i in range(n):
-            yield {"kind": "point", "fmt": fmt, "seed": r.randrange(1 << 30), "layout": ["ads", "two", "des", "two"][i % 4], "target": "file" if (fmt == "excel" or i % 3 == 0) else "string"}
+            yield {"kind": "point", "fmt": fmt, "seed": r.randrange(1 << 30), "layout": ["ads", "two", "des", "two", "ads-unsorted", "two-unsorted"][i % 6], "target": "file" if (fmt == "excel" or i % 3 == 0) else "string"}
         for i in range(n // 2 if tier == "quick" else n):
             yield {"kind": "model", "fmt": fmt, "seed": r.randrange(1 << 30), "model": GM.MODEL_NAMES[i % len(GM.MODEL_NAMES)], "target": "file" if (fmt == "excel" or i % 3 == 0) else "string"}
         for i in range(10 if tier == "quick" else 400):
@@ -114,6 +114,9 @@ PROBES = ["", " padded ", "comma,inside", "quote'inside", "3", "3.0", "1e5", "Tr
 # ------------------------------------------------------------------ format drivers
 
 
+_PATHS = [0]
+
+
 def _export_import(fmt, iso, target, tag):
     """Returns (outcome, isotherm-or-exception, stage)."""
     from pygaps.parsing.aif import isotherm_from_aif
@@ -122,7 +125,10 @@ def _export_import(fmt, iso, target, tag):
     from pygaps.parsing.csv import isotherm_to_csv
     from pygaps.parsing.excel import isotherm_from_xl
     from pygaps.parsing.excel import isotherm_to_xl
-    path = os.path.join(_TMP, "iso-%s.%s" % (tag, {"csv": "csv", "excel": "xls", "aif": "aif"}[fmt]))
+    # every other file name carries dots besides the extension ("MOF-5_N2_77.4K.aif")
+    _PATHS[0] += 1
+    stem = "iso-%s" % tag if _PATHS[0] % 2 else "iso-%s_77.4K.v2" % tag
+    path = os.path.join(_TMP, "%s.%s" % (stem, {"csv": "csv", "excel": "xls", "aif": "aif"}[fmt]))
     try:
         try:
             if fmt == "csv":
@@ -242,7 +248,20 @@ def _run_point(case, ctx):
     layout = case["layout"]
     n = r.choice([1, 2, 3, 8, 25]) if r.random() < 0.5 else r.randint(1, 40)
     decimals = r.choice([3, 6, 6, 10])
-    spec = gen.point_spec(r, n=n, units=units, two_branches=(layout == "two" and n >= 4), extras=r.random() < 0.5, meta=meta, material_props=mp, decimals=decimals)
+    spec = gen.point_spec(r, n=n, units=units, two_branches=(layout.startswith("two") and n >= 4), extras=r.random() < 0.5, meta=meta, material_props=mp, decimals=decimals)
+    if layout.endswith("-unsorted") and n >= 4:
+        # the rows of a branch in the order they were measured, not sorted by pressure (several dosing cycles, a pressure dip)
+        na = spec["branch"].count(0)
+        idx = list(range(na))
+        r.shuffle(idx)
+        idx += list(range(na, n))
+        for col in ["pressure", "loading"] + list(spec["extra"]):
+            src = spec[col] if col in spec else spec["extra"][col]
+            new = [src[i] for i in idx]
+            if col in spec:
+                spec[col] = new
+            else:
+                spec["extra"][col] = new
     if layout == "des":
         spec["branch"] = [1] * n
         for col in ["pressure", "loading"] + list(spec["extra"]):
